@@ -40,6 +40,23 @@ def run(ctx):
         "built-in function bodies are black boxes over their declared signatures (one argument vector per signature)",
     ]
 
+    # ---- corpus: the minimised inputs of the repaired defects, checked first
+    corpus = []
+    cpath = os.path.join(V.VERIF, "corpus", "C05", "fixed_cells.txt")
+    if os.path.exists(cpath):
+        for line in open(cpath):
+            f = line.split()
+            if len(f) == 3 and not line.startswith("#"):
+                corpus.append(f)
+    creps = V.run_batch(T.impl(), ["cell " + c[0] for c in corpus], hang_s=30) if corpus else []
+    for (spec, elint, einterp), rep in zip(corpus, creps):
+        f = (rep or "").split()
+        ok = len(f) == 3 and (elint == "-" or f[0] == elint) and (einterp == "-" or f[1] == einterp)
+        if not ok:
+            ctx.violation("C05 corpus cell %s: expected linter %s / simulator %s, observed %s (a repaired defect is back)" % (spec, elint, einterp, rep),
+                          {"cell": spec, "observed": T.show(spec) if rep and not rep.startswith(("died", "hang")) else rep,
+                           "replay_cmd": "printf '0\\tshow %s\\n' | build/implrun c05" % spec})
+
     # ---- harness integrity: every cell must have produced a verdict
     for req, rep in obs.bad[:20]:
         ctx.violation("the real linter/simulator did not answer on a cell (%s): %s" % (req, (rep or "no reply")[:160]),
@@ -100,6 +117,7 @@ def run(ctx):
         "wildcard_instantiations": obs.http_names,
         "verdict_histogram": {k: dict(v) for k, v in classes.items()},
         "disagreeing_rows": dict(kinds),
+        "corpus_cells": len(corpus),
         "known_lines": len(ctx.known),
         "known_lines_hit": sum(1 for k in ctx.known if k["hit"]),
     })
